@@ -33,8 +33,8 @@ var w1Helpers = map[string]string{
 // G4: named single-construct exceptions (function -> field -> reason).
 var w1Exceptions = map[string]map[string]string{
 	"(*starlark.Function).CallInternal": {
-		"List.elems": "APPEND: the operand is the compiler-private accumulator of a list comprehension, unreachable from any other value until the comprehension completes",
-		"cell.v": "SETLOCALCELL: cells are written only through the frame that owns the variable; rebinding a captured variable is not mutation of a frozen value's observable state before freeze (checked separately by F-rules)",
+		"List.elems":       "APPEND: the operand is the compiler-private accumulator of a list comprehension, unreachable from any other value until the comprehension completes",
+		"cell.v":           "SETLOCALCELL: cells are written only through the frame that owns the variable; rebinding a captured variable is not mutation of a frozen value's observable state before freeze (checked separately by F-rules)",
 		"Module.globals[]": "SETGLOBAL: emitted only for top-level code, which runs before the module's globals are frozen",
 	},
 	"starlark.ExecREPLChunk": {
@@ -107,9 +107,36 @@ func isFreshValue1(c *freshCtx, v ssa.Value, seen map[ssa.Value]bool) bool {
 		return !isVarCell(x)
 	case *ssa.MakeSlice, *ssa.MakeMap:
 		return true
+	case *ssa.Parameter:
+		// only while summarising a helper: "fresh provided this argument is" (computeReturnsFresh)
+		if c.assume != nil {
+			for i, p := range x.Parent().Params {
+				if p == x {
+					c.assume[i] = true
+					return true
+				}
+			}
+		}
 	case *ssa.Call:
-		if f := x.Call.StaticCallee(); f != nil && c.returnsFresh[f] {
+		f := x.Call.StaticCallee()
+		if f != nil && f.Origin() != nil {
+			f = f.Origin() // an instance of a generic helper: judged by the generic body
+		}
+		if f != nil && c.returnsFresh[f] {
 			return true
+		}
+		if ps, ok := c.passThrough[f]; ok && f != nil && c.assume == nil {
+			// a helper that returns its argument extended (func(names []string, ...) []string { ...append...;
+			// return names }): its result is as fresh as what it was given
+			all := true
+			for i := range ps {
+				if i >= len(x.Call.Args) || !isFreshValue1(c, x.Call.Args[i], seen) {
+					all = false
+				}
+			}
+			if all {
+				return true
+			}
 		}
 		if b, ok := x.Call.Value.(*ssa.Builtin); ok && b.Name() == "append" {
 			// append to a fresh or nil slice
@@ -172,13 +199,50 @@ func freshViaField(fc *freshCtx, fn *ssa.Function, tr *trace) bool {
 
 type freshCtx struct {
 	returnsFresh map[*ssa.Function]bool
+	// passThrough[f] = the parameters the first result of f derives from (by append, slicing, phi) when
+	// everything else it may return is fresh
+	passThrough map[*ssa.Function]map[int]bool
+	assume      map[int]bool // non-nil only while a passThrough summary is being computed
 }
 
 // computeReturnsFresh: least fixpoint of "every return operand (first
 // result) is an allocation of this function or a call of a returns-fresh
 // function".
 func computeReturnsFresh(p *Prog) *freshCtx {
-	c := &freshCtx{returnsFresh: map[*ssa.Function]bool{}}
+	c := &freshCtx{returnsFresh: map[*ssa.Function]bool{}, passThrough: map[*ssa.Function]map[int]bool{}}
+	defer func() {
+		for _, fn := range p.Funcs {
+			if c.returnsFresh[fn] || fn.Signature.Results().Len() == 0 || fn.Signature.Recv() != nil {
+				continue
+			}
+			c.assume = map[int]bool{}
+			ok, any := true, false
+			eachInstr(fn, func(in ssa.Instruction) {
+				r, isr := in.(*ssa.Return)
+				if !isr || len(r.Results) == 0 {
+					return
+				}
+				any = true
+				tr := traceAddr(r.Results[0])
+				if len(tr.fields) > 0 {
+					ok = false
+					return
+				}
+				for _, b := range tr.bases {
+					if k, isc := b.v.(*ssa.Const); isc && k.Value == nil {
+						continue
+					}
+					if b.throughPtr || !isFreshValue(c, b.v) {
+						ok = false
+					}
+				}
+			})
+			if ok && any && len(c.assume) > 0 {
+				c.passThrough[fn] = c.assume
+			}
+			c.assume = nil
+		}
+	}()
 	for changed := true; changed; {
 		changed = false
 		for _, fn := range p.Funcs {
